@@ -1,4 +1,5 @@
 import AmrK.TasteComplete
+import AmrK.TasteCoordsProofs
 import AmrK.TasteAll
 import AmrK.TasteWF
 import AmrK.Obligations.HeaderLiteral
@@ -87,5 +88,12 @@ example :
 example :
     shapeOK (fileOf 1 [(⟨[0,0,0],[1,0,0],"f",0⟩, List.replicate 16 1), (⟨[2,0,0],[2,0,0],"f",0⟩, List.replicate 8 2)]) 1
       [⟨[0,0,0],[1,0,0],"f",0⟩, ⟨[2,0,0],[2,0,0],"f",0⟩] = true := by decide +kernel
+
+/-- **box coordinates of a well-formed plotfile are accepted** (`boxes_coordinates`, exact arithmetic; the executable check
+    `TasteCoords.axisOK` is compared with the real validator on every generated plotfile): a box whose physical bounds are
+    the faces of its index range passes in every direction, on a domain of `n` cells of size `dx` -/
+theorem coordinates_accepted (lo hi dx : Rat) (n : Nat) (i0 i1 : Nat) (h0 : i0 < n) (h1 : i1 < n) (h : hi = lo + (n : Rat) * dx) :
+    TasteCoords.axisOK lo hi dx n i0 i1 (lo + (i0 : Rat) * dx) (lo + ((i1 : Rat) + 1) * dx) = some true :=
+  TasteCoords.axisOK_exact lo hi dx n i0 i1 h0 h1 h
 
 end C03
